@@ -150,7 +150,7 @@ def history(task):
                 problems.append("step %d %s: %s" % (k, cmd, e["verdict"]))
         elif cmd == "rm":
             t, n, loc = rng.choice(ents)
-            pat = rng.choice([os.path.basename(loc) or b"*", b"*", b"a*", b"nomatch"])
+            pat = rng.choice([os.path.basename(loc) or b"*", b"*", b"a*", b"nomatch", (os.path.basename(loc) or b"x") + b"/", b"*/", loc + b"/"])
             pat = b"".join((b"[" + bytes([c]) + b"]") if c in b"[" else bytes([c]) for c in pat)
             wd = world_from_state(base, state, cmd="rm", cwd=home, args=[pat], opts={}, stdin=None)
             wd["argv"] = cmd_argv(wd)
